@@ -168,7 +168,93 @@ class NoMoreData(Contract):
     ensures = dict(no_callbacks=lambda S: len(S.trace) == 0)
 
 
-CONTRACTS = [IsHexDigits, HexInt, ToChunk, BodyState, CrlfState, NoMoreData]
+CRLF = b"\r\n"
+
+
+def first_crlf(buf):
+    """index of the first CR LF in buf, -1 if none"""
+    return bytes(buf).find(CRLF) if not is_sym(buf) else core.seq_find(buf, CRLF, 0)
+
+
+def no_crlf_before(buf, k):
+    """representation invariant of _start: no CR LF begins at an index below k"""
+    e = first_crlf(buf)
+    return bor(e < 0, e >= k)
+
+
+def hexint_summary(I, b):
+    """_hexint as proved by HexInt: the value for a non-empty hex-digit string (zero exactly for all-'0'), ValueError otherwise"""
+    c = ctx()
+    if not band(L(b) > 0, all_hex(b)):
+        raise ValueError("not hex digits")
+    v = core.fresh_int(c.fresh_name("hexval"), lo=0)
+    c.assume(core.as_bool_term(veq(v == 0, core.all_bytes(b, lambda x: x == 48))))
+    c.ghost["hexint"] = (b, v)
+    return v
+
+
+def translate_model(I, recv, table, delete=b""):
+    """bytes.translate(None, delete): only whether the result is empty is observed -- empty iff every byte is deleted"""
+    if table is not None:
+        return NotImplemented
+    c = ctx()
+    r = core.fresh_seq(c.fresh_name("translated"), "bytes")
+    allowed = core.all_bytes(recv, lambda x: core.mk_bool(z3.Or(*[core.num_term(x) == y for y in bytes(delete)])))
+    c.assume(core.as_bool_term(veq(L(r) == 0, allowed)))
+    c.assume(core.as_bool_term(L(r) <= L(recv)))
+    return r
+
+
+class ChunkLengthState(Contract):
+    """The chunk-size line is recognised wherever earlier deliveries were cut (seeded changes C22-1, C18-1)."""
+    prop = "C22"
+    module = "twisted.web.http"
+    function = "_ChunkedTransferDecoder._dataReceived_CHUNK_LENGTH"
+    differential = False
+    summaries = {"_hexint": hexint_summary}
+    calls = {"bytes.translate": translate_model}
+    inputs = dict(buf=Bytes(alphabet=b"1a;\r\n", small_len=3), start=Int(lo=0, small=[0, 1, 2]))
+    trusted = ["bytes.find / bytes.translate library axioms", "_hexint through its proved contract (HexInt)"]
+    timeout_quick = 60
+    pc_slices = True
+
+    def requires(self, i):
+        # what dataReceived guarantees (non-empty buffer) and the representation invariant of _start
+        return band(L(i.buf) >= 1, i.start <= L(i.buf), no_crlf_before(i.buf, i.start))
+
+    def setup(self, i):
+        d = mkdec(self, state="CHUNK_LENGTH", _buffer=i.buf if is_sym(i.buf) else bytearray(i.buf), _start=i.start)
+        return dict(self=d, args=[], objs=dict(d=d), ghost=dict(hexint=None))
+
+    def bounded_inputs(self, tier):
+        return iter(())  # _hexint / translate are summaries here; the real decoder runs in the bounded part
+
+    raises = (http._MalformedChunkedDataError,)
+
+    def _post(S):
+        if S.exc is not None:
+            return None
+        d, buf = S.new.d, S.i.buf
+        newbuf = bytes(d._buffer) if isinstance(d._buffer, bytearray) else d._buffer
+        e = first_crlf(buf)
+        if e < 0:
+            # no complete line yet: keep everything, remember where a straddling CR LF could begin
+            return band(S.result is False, veq(newbuf, buf), d.state == "CHUNK_LENGTH",
+                        d._start >= 0, d._start <= L(buf) - 1)
+        b, v = S.ghost["hexint"]
+        semi = core.seq_find(buf[:e], b";", 0) if is_sym(buf) else bytes(buf[:e]).find(b";")
+        raw_end = e if semi < 0 else semi
+        return band(S.result is True, veq(b, buf[:raw_end]), veq(d.length, v), veq(newbuf, buf[e + 2:]),
+                    d.state == ("TRAILER" if v == 0 else "BODY"),
+                    # the invariant of _start is re-established for whatever follows
+                    d._start >= 0, d._start <= L(newbuf), no_crlf_before(newbuf, d._start))
+
+    ensures = dict(size_line_parsed_and_start_invariant_kept=_post)
+    canaries = [("self._start = len(self._buffer) - 1", "self._start = len(self._buffer)", "size_line_parsed_and_start_invariant_kept"),
+                ("del self._buffer[0 : eolIndex + 2]", "del self._buffer[0 : eolIndex + 1]", "size_line_parsed_and_start_invariant_kept")]
+
+
+CONTRACTS = [IsHexDigits, HexInt, ToChunk, BodyState, CrlfState, NoMoreData, ChunkLengthState]
 BOUNDED = bounded("C22")
 NOTES = dict(
     explanation="Hex chunk-size parsing, chunk formatting and the BODY/CRLF decoder states proved; chunk-size line, "
